@@ -35,6 +35,73 @@ pub struct Drv<const N: usize> {
     pub feat: &'static str,
     pub skipped: u64,
     pub calls: u64,
+    /// a buffer of another capacity living in a sibling driver: (capacity, pointer), set by the runner
+    pub peer: Option<(usize, *mut ())>,
+}
+
+/// what the scenario runner needs from a driver of any capacity
+pub trait Sub {
+    fn do_step(&mut self, st: &Value);
+    fn take_out(&mut self) -> String;
+    fn buf_ptr(&self, h: i64) -> *mut ();
+    fn set_peer(&mut self, p: Option<(usize, *mut ())>);
+    fn do_finish(&mut self, last: bool);
+}
+
+impl<const N: usize> Sub for Drv<N> {
+    fn do_step(&mut self, st: &Value) {
+        self.step(st)
+    }
+    fn take_out(&mut self) -> String {
+        std::mem::take(&mut self.out)
+    }
+    fn buf_ptr(&self, h: i64) -> *mut () {
+        self.buf(h) as *mut ()
+    }
+    fn set_peer(&mut self, p: Option<(usize, *mut ())>) {
+        self.peer = p;
+    }
+    fn do_finish(&mut self, last: bool) {
+        self.finish(last)
+    }
+}
+
+fn cross2<const N: usize, const M: usize>(ev: &mut Ev, fault: Option<(Kind, u32)>, a: &Buf<N>, b: &Buf<M>, op: &str) {
+    match op {
+        "partial_cmp" => {
+            if let Some(r) = call(ev, fault, || a.partial_cmp(b)) {
+                ev.ret = match r {
+                    Some(x) => Ret { k: "ord", n: x as i64, ..Default::default() },
+                    None => Ret::none(),
+                };
+            }
+        }
+        _ => {
+            let r = call(ev, fault, || match op {
+                "eq" => a == b,
+                "ne" => a != b,
+                "lt" => a < b,
+                "le" => a <= b,
+                "gt" => a > b,
+                _ => a >= b,
+            });
+            if let Some(r) = r {
+                ev.ret = Ret::boolean(r);
+            }
+        }
+    }
+}
+
+fn cross<const N: usize>(ev: &mut Ev, fault: Option<(Kind, u32)>, a: &Buf<N>, m: usize, q: *mut (), op: &str) -> bool {
+    macro_rules! arm {
+        ($($k:literal),*) => {
+            match m {
+                $( $k => { cross2::<N, $k>(ev, fault, a, unsafe { &*(q as *const Buf<$k>) }, op); true } )*
+                _ => false,
+            }
+        };
+    }
+    arm!(0, 1, 2, 3, 4, 5, 6, 7, 8, 16, 33)
 }
 
 pub fn gi(st: &Value, k: &str, d: i64) -> i64 {
@@ -203,6 +270,7 @@ impl<const N: usize> Drv<N> {
             feat,
             skipped: 0,
             calls: 0,
+            peer: None,
         }
     }
 
@@ -582,12 +650,12 @@ impl<const N: usize> Drv<N> {
             "make_contiguous" => {
                 let r = call(&mut ev, fault, || {
                     let s = b.make_contiguous();
-                    s.iter().map(|x| (x.lid(), x as *const Tracked)).collect::<Vec<_>>()
+                    (s.as_ptr(), s.len())
                 });
-                if let Some(r) = r {
-                    ev.ret = Ret::ids(r.iter().map(|x| x.0).collect());
-                    ev.ret.slots = r.iter().map(|x| self.slot_of(p, x.1)).collect();
-                    ev.allocs = -1;
+                if let Some((sp, sl)) = r {
+                    let s = unsafe { std::slice::from_raw_parts(sp, sl) };
+                    ev.ret = Ret::ids(s.iter().map(|x| x.lid()).collect());
+                    ev.ret.slots = s.iter().map(|x| self.slot_of(p, x)).collect();
                 }
             }
             "get" | "nth_front" | "nth_back" | "index" => {
@@ -726,6 +794,16 @@ impl<const N: usize> Drv<N> {
                 }
                 ev.post2 = self.obs(h2);
             }
+            "eq" | "ne" | "partial_cmp" | "lt" | "le" | "gt" | "ge" if self.peer.is_some() => {
+                // the other operand has a different capacity and lives in a sibling driver
+                let (m, q) = self.peer.unwrap();
+                ev.h2 = gi(st, "h2", 1);
+                let a: &Buf<N> = unsafe { &*p };
+                if q.is_null() || !cross(&mut ev, fault, a, m, q, &op) {
+                    self.skipped += 1;
+                    return;
+                }
+            }
             "eq" | "ne" | "partial_cmp" | "cmp" | "lt" | "le" | "gt" | "ge" => {
                 let h2 = gi(st, "h2", 1);
                 ev.h2 = h2;
@@ -799,6 +877,22 @@ impl<const N: usize> Drv<N> {
                 });
                 if let Some(r) = r {
                     ev.ret = Ret { k: "str", s: format!("{:016x}", r), ..Default::default() };
+                    let h2 = gi(st, "h2", -1);
+                    let q = self.buf(h2);
+                    if !q.is_null() && !self.borrowed(h2, true) {
+                        // a second buffer of the same capacity, hashed the same way, for comparison
+                        ev.h2 = h2;
+                        let o: &Buf<N> = unsafe { &*q };
+                        let mut e2 = Ev::new("call", "hash");
+                        if let Some(r2) = call(&mut e2, None, || {
+                            let mut hs = DefaultHasher::new();
+                            o.hash(&mut hs);
+                            hs.finish()
+                        }) {
+                            ev.ret.s2 = format!("{:016x}", r2);
+                        }
+                        ev.cbs.extend(e2.cbs);
+                    }
                 }
             }
             "debug" => {
@@ -846,7 +940,6 @@ impl<const N: usize> Drv<N> {
                 if let Some(it) = r {
                     ev.ret = Ret::num(it.len() as i64);
                     self.set_view(v, VSlot { view: View::Into(it), h: -1, excl: false });
-                    ev.allocs = -1;
                 }
             }
             "drop_buf" => {
@@ -855,7 +948,6 @@ impl<const N: usize> Drv<N> {
                 if call(&mut ev, fault, move || drop(bx)).is_some() {
                     ev.ret = Ret::unit();
                 }
-                ev.allocs = -1;
             }
             "poison" => {
                 let pat = gs(st, "acc").to_string();
@@ -1175,7 +1267,7 @@ impl<const N: usize> Drv<N> {
     }
 
     /// end of scenario: release everything that is still alive, as ordinary recorded calls
-    pub fn finish(&mut self) {
+    pub fn finish(&mut self, last: bool) {
         for v in 0..self.views.len() {
             if self.views[v].is_some() {
                 let st = serde_json::json!({"op":"v_drop","v":v});
@@ -1192,8 +1284,10 @@ impl<const N: usize> Drv<N> {
             let st = serde_json::json!({"op":"caller_drop"});
             self.step(&st);
         }
-        let ev = Ev::new("end", "end");
-        self.emit(ev);
+        if last {
+            let ev = Ev::new("end", "end");
+            self.emit(ev);
+        }
     }
 }
 
